@@ -492,4 +492,34 @@ Section Acc.
       + destruct (nlri_iter_total (S (remaining p)) k ap p ltac:(lia)) as (l & El & H1 & H2). exists l. repeat split; auto. lia.
       + exists []. repeat split; cbn; lia.
   Qed.
+  (* the next-hop accessors: mp_next_hop, find_next_hop for any family, has_mp_nlri *)
+  Lemma nh_parse_np fam p : nh_parse fam p <> Panic.
+  Proof.
+    unfold nh_parse. destruct (parse_u8 p) as [[len p1]| |] eqn:E1; cbn [bind]; [|discriminate|exfalso; eapply parse_u8_no_panic; eassumption].
+    destruct (fam_of fam) as [k|]; [|discriminate].
+    destruct k; repeat match goal with |- context [if ?c then _ else _] => destruct c end; try discriminate;
+      repeat match goal with
+             | |- context [take ?n ?q] => let E := fresh "Et" in destruct (take n q) as [[? ?]| |] eqn:E; cbn [bind]; try discriminate;
+                                          try (exfalso; eapply take_no_panic; eassumption)
+             end.
+  Qed.
+
+  Lemma c02_next_hop_total_proof :
+    a_mp_next_hop b u <> Panic /\ (forall fam, a_find_next_hop b u fam <> Panic).
+  Proof.
+    assert (Hm : a_mp_next_hop b u <> Panic).
+    { unfold a_mp_next_hop. destruct (find_unchecked (a_unchecked b u) 14) as [[f tlv]|] eqn:Ef; [|discriminate].
+      destruct (find_unchecked_in _ _ _ _ Ef) as (c' & Hin). unfold a_unchecked in Hin.
+      pose proof (unchecked_walk_tlv _ _ _ _ _ Hin) as Hlen.
+      assert (Tv : tlv_value f tlv = Ok (skipn (if has_ext f then 4%nat else 3%nat) tlv)).
+      { unfold tlv_value. destruct (Nat.leb_spec (if has_ext f then 4%nat else 3%nat) (length tlv)); [reflexivity|lia]. }
+      rewrite Tv. cbn [bind].
+      destruct (mp_family _) as [[fam p]| |] eqn:Em; cbn [bind]; [|discriminate|exfalso; eapply mp_family_np; eassumption].
+      pose proof (nh_parse_np fam p) as Hn. destruct (nh_parse fam p); cbn [bind]; congruence. }
+    split; [exact Hm|]. intros fam. unfold a_find_next_hop.
+    pose proof (proj2 (proj2 (proj2 (proj2 c02_typed_total_proof))) 3) as Hc. unfold a_conventional_next_hop.
+    destruct (a_mp_next_hop b u) as [[[f nh]|]| |]; [| | |congruence];
+      repeat match goal with |- context [if ?c then _ else _] => destruct c end; try discriminate;
+      destruct (a_u32 b u 3) as [[x|]| |]; try discriminate; congruence.
+  Qed.
 End Acc.
